@@ -93,3 +93,9 @@ chk('C20', 'exploration',
     'Four closed curves x every leaf-set-distinct BFS state (depth 1 quick / 2-3 thorough) x problems (with and without initial data) x densities {0, e_i, e_i+e_j, Galerkin}: both estimators compared (1e-9) with an independent computation on a second real mesh refined by real bisection, assembled from single bilform/linform calls, psi built from geometry; vanishing clause, non-negativity, Prolongate == geometric containment on every nested pair, serial vs pool bits on virtual-pool schedules and two genuine fork pools.',
     'The reference shares the kernel evaluations (bilform/linform) with the code: C20 decides the algebra, ordering, signs and sharing of the estimators; quadrature accuracy is C01/C08.',
     'exhaustive enumeration of BFS mesh states x density basis against an independent reference computation', 'DESIGN.md 4/C20', 'E1-mesh-explorer')
+ENGINES += [{'name': 'E4-m0-oracle', 'path': 'mc/oracle_m0.py', 'serves_properties': ['C08'],
+             'kind_free_text': 'independent initial-potential reference (closed-form 1-D factors, graded tensor rules), validated against mpmath on every run'}]
+chk('C08', 'exploration',
+    'Three polygonal domains x every dyadic boundary element (space level <= 3 quick / 5 thorough) x 11 time intervals (incl. those starting at t=0) with aspect <= 32 x u0 in {1, sine product} against the independent oracle (1e-5); linearity (1e-12), additivity under time/space split with real children, independent domain integral for the polynomial/trigonometric family (1e-6), pointwise evaluate / evaluate_mesh for t >= 0.05 side^2 (1e-5), linform_vector bitwise; branch-signature vacuity guard (identical / touching v0 / touching v1 / disjoint cells, a==0 / a>0).',
+    'Trusted: mc/oracle_m0.py (validated against 26-30 digit mpmath and against two unrelated rule sets on every deciding load). The closed forms of problems.py are cross-checked pointwise with mpmath as arbiter.',
+    'exhaustive enumeration of a bounded element universe against an independent reference model', 'DESIGN.md 4/C08', 'E4-m0-oracle')
